@@ -59,7 +59,7 @@ public:
 
         do_prune(now);
 
-        return do_insert_update(key, expire_time, a);
+        return do_insert_update(key, now, expire_time, a);
     }
 
     /**
@@ -82,7 +82,7 @@ public:
 
         for (const auto& key : key_range)
         {
-            if (do_insert_update(key, expire_time, a))
+            if (do_insert_update(key, now, expire_time, a))
             {
                 ++inserted;
             }
@@ -261,9 +261,20 @@ private:
         keyed_iterator m_keyed_elements_position;
     };
 
-    auto do_insert_update(const key_type& key, std::chrono::steady_clock::time_point expire_time, allow a) -> bool
+    auto do_insert_update(
+        const key_type&                       key,
+        std::chrono::steady_clock::time_point now,
+        std::chrono::steady_clock::time_point expire_time,
+        allow                                 a) -> bool
     {
-        const auto keyed_position = m_keyed_elements.find(key);
+        auto keyed_position = m_keyed_elements.find(key);
+        // An element written earlier in this same call can already be expired (zero TTL), treat it
+        // like the prune at the start of every call would: it does not exist anymore.
+        if (keyed_position != m_keyed_elements.end() && now >= keyed_position->second.m_ttl_position->m_expire_time)
+        {
+            do_erase(keyed_position);
+            keyed_position = m_keyed_elements.end();
+        }
         if (keyed_position != m_keyed_elements.end())
         {
             if (update_allowed(a))
